@@ -96,6 +96,12 @@ def gen_cases(rng, tier):
         yield case("nv_run", enc([1, 2], [3]) + top(x) + top(0xFF) + [7] * 6), ["run", "huge-lengths"]
         yield case("nv_run", [0xC0, 0, 0, 0] + top(x)), ["run", "huge-lengths"]
         yield case("nv_run", [0x80 | rng.randrange(0x70, 0x80), 0xFF, 0xFF, rng.randrange(256)] * 2), ["run", "huge-lengths"]
+    # announced lengths of 2^16 .. 2^31 with 64 KiB AND MORE of input behind the prefix: still incomplete (every bit of the 31-bit length
+    # counts), nothing is yielded, the whole input is handed back
+    for (b3, b2, b1, b0) in ([(0x81, 0, 0, 5), (0x80, 0x02, 0, 0)] if quick else [(0x81, 0, 0, 5), (0x80, 0x02, 0, 0), (0xC0, 0, 0, 1), (0x80, 0x01, 0x12, 0x34), (0x90, 0, 0, 0)]):
+        body = [rng.randrange(256) for _ in range(70000 if b3 != 0x80 or b2 != 0x01 else 66000)]
+        yield case("nv_run", [1, b3, b2, b1, b0, 78] + body), ["run", "huge-lengths", "long-input"]
+        yield case("nv_run", enc([1, 2], [3]) + [b3, b2, b1, b0, 0] + body), ["run", "huge-lengths", "long-input"]
     for _ in range(300 if quick else 20000):
         L = rng.randrange(0, 40)
         yield case("nv_run", [rng.choice(ALPHA + [rng.randrange(256)]) for _ in range(L)]), ["run", "random"]
@@ -111,7 +117,7 @@ def nontrivial(line, tags):
 
 
 def min_classes(tier):
-    return {"exhaustive-short": 19000, "prefix": 500, "mutated": 150, "big": 7, "huge-lengths": 100}
+    return {"exhaustive-short": 19000, "prefix": 500, "mutated": 150, "big": 7, "huge-lengths": 100, "long-input": 4}
 
 
 def oracle(line, impl_line):
